@@ -31,6 +31,7 @@ import (
 	"time"
 
 	"github.com/bartventer/httpcache"
+	"github.com/bartventer/httpcache/internal"
 	"github.com/bartventer/httpcache/store"
 	"github.com/bartventer/httpcache/store/driver"
 	"github.com/bartventer/httpcache/store/fscache"
@@ -613,6 +614,15 @@ func runHistory(t *testing.T, h *History) (lines []string) {
 				cancel = "-"
 			}
 			rs.emit("I\tREQ\t%d\t%d\t%s\t%s\t%s\t%s\t%s", n, op.AtNs, hx(op.Method), hx(op.URL), glue, encHdrList(op.Hdr), cancel)
+			// glue: the normal form of the q-value classes (Accept*, TE), which the model does not define;
+			// it is what internal.NewVaryHeaderNormalizer makes of the request's combined field value
+			for _, f := range qClassFields {
+				if vs := hdrToHTTP(op.Hdr).Values(f); len(vs) > 0 {
+					for _, nv := range internal.NewVaryHeaderNormalizer().NormalizeVaryHeader(f, hdrToHTTP(op.Hdr)) {
+						rs.emit("I\tNORM\t%s\t%s\t%s", hx(f), hx(strings.Join(vs, ", ")), hx(nv))
+					}
+				}
+			}
 			for k, rp := range op.Replies {
 				kind := "resp"
 				if rp.Hang {
@@ -917,6 +927,8 @@ func hdrToHTTP(h Hdr) http.Header {
 }
 
 // locGlue: url.Parse + ResolveReference of a Location-like value against the request URL.
+var qClassFields = []string{"Accept", "Accept-Charset", "Accept-Language", "Accept-Encoding", "Te", "Content-Encoding"}
+
 func locGlue(reqURL *url.URL, loc string) string {
 	lu, err := url.Parse(loc)
 	if err != nil {
